@@ -353,6 +353,11 @@ func runC03(r *Runner, tier string, rng *Rng) {
 		r.St.Count("collide")
 		add(c)
 	}
+	for i := 0; i < nrand/20; i++ {
+		c := genUncleanDiffCase(rng)
+		r.St.Count("unclean_diff")
+		add(c)
+	}
 	flush()
 	// (c) rule grammar
 	for i := 0; i < nunpack; i++ {
@@ -612,6 +617,46 @@ func genCollideCase(rng *Rng) Case {
 	}
 	items := []any{map[string]any{"name": "t", "kind": "step", "expected_materials": rules, "expected_products": []any{}}}
 	return Case{Op: "rules", Args: map[string]any{"items": items, "links": links, "repeat": 12}, Feat: feat}
+}
+
+// genUncleanDiffCase: one file recorded under a name that is NOT a clean path (as `in-toto run -p ./a`
+// records it) among the materials and the products of one link, with equal or different hashes, or
+// only on one side: CREATE / DELETE / MODIFY have to see it as what it is (finding F21: MODIFY never
+// consumed such an artifact, the look-up by the clean name found nothing in either map).
+func genUncleanDiffCase(rng *Rng) Case {
+	base := rng.Pick([]string{"a", "d/a", "foo"})
+	variant := func() string {
+		return rng.Pick([]string{"./" + base, base + "/.", "x/../" + base, "./" + base, base})
+	}
+	h := func() any { return map[string]any{"sha256": rng.Pick([]string{"aa11", "bb22"})} }
+	mats, prods := map[string]any{}, map[string]any{}
+	switch rng.Intn(6) {
+	case 0:
+		mats[variant()] = h() // deleted
+	case 1:
+		prods[variant()] = h() // created
+	default:
+		mats[variant()] = h() // kept or modified
+		prods[variant()] = h()
+	}
+	if rng.Chance(40) {
+		mats["other"] = map[string]any{"sha256": "cc33"}
+		prods["other"] = map[string]any{"sha256": "cc33"}
+	}
+	pat := rng.Pick([]string{"*", base, "./" + base})
+	mk := func() []any {
+		var rs []any
+		for i := 1 + rng.Intn(2); i > 0; i-- {
+			rs = append(rs, []any{rng.Pick([]string{"MODIFY", "MODIFY", "CREATE", "DELETE", "ALLOW", "REQUIRE"}), pat})
+		}
+		if rng.Chance(30) {
+			rs = append(rs, []any{"ALLOW", "other"})
+		}
+		return append(rs, []any{"DISALLOW", "*"})
+	}
+	links := map[string]any{"t": map[string]any{"materials": mats, "products": prods}}
+	items := []any{map[string]any{"name": "t", "kind": rng.Pick([]string{"step", "inspection"}), "expected_materials": mk(), "expected_products": mk()}}
+	return Case{Op: "rules", Args: map[string]any{"items": items, "links": links, "repeat": 2}, Feat: "unclean-diff"}
 }
 
 func genRuleTokens(rng *Rng) []any {
